@@ -1,4 +1,4 @@
-"""C04 — direct mode never answers for changed inputs.  Proof: Props/C04.lean (finder_sound over all splits; manifest_hit_sound_partial
+"""C04 — direct mode never answers for changed inputs.  Proof: Props/C04.lean (finder_sound over all splits; manifest_hit_sound
 over all option combinations and file-system evolutions); tie: h_c04 finder/manifest + modeld finder/manifest; monitors on the real code."""
 import json, os, re
 from vlib import *
